@@ -213,5 +213,59 @@ theorem reads_build (F : BodyFn) {declOf : Nat → Nat → Option Decl} (P : Pro
   · rw [hw, buildLoop_fs_frame picks hloop u.src hq] at hc
     exact hread u hu c hc
 
+/-! ## project edits and histories over changing projects -/
+
+/-- A project edit: a task is added, removed, or its declaration is replaced (dependencies, products,
+`after`, marks, priority, behaviour, module — the whole `TaskSpec`; the id stays). -/
+inductive PEdit
+  | add (t : TaskSpec)
+  | remove (id : Nat)
+  | change (id : Nat) (t' : TaskSpec)
+
+def PEdit.apply : PEdit → Project → Project
+  | .add t, P => ⟨P.tasks ++ [t]⟩
+  | .remove id, P => ⟨P.tasks.filter (fun t => t.id != id)⟩
+  | .change id t', P => ⟨P.tasks.map (fun t => if t.id == id then { t' with id := id } else t)⟩
+
+/-- Histories over a *changing* project: file edits (any change of file contents: inputs, module
+files, products), project edits (`PEdit`, any number between two builds), loss of the state table,
+and builds — any options, any schedule the loop accepts, any outcome (failures, rejected DAG).  A
+build happens only on a project that collects (`WF`), with total bodies, and whose declarations are
+what its module files say at that moment (`DeclChangeTouchesSrc`): between builds the files and the
+project may be out of step in any way. -/
+inductive HistoryP (F : BodyFn) (declOf : Nat → Nat → Option Decl) : Project → World → Prop
+  | init (P : Project) (fs : FS) : HistoryP F declOf P ⟨fs, []⟩
+  | fileEdit {P : Project} {w : World} (fs' : FS) : HistoryP F declOf P w → HistoryP F declOf P { w with fs := fs' }
+  | projEdit {P : Project} {w : World} (e : PEdit) : HistoryP F declOf P w → HistoryP F declOf (e.apply P) w
+  | dbLost {P : Project} {w : World} : HistoryP F declOf P w → HistoryP F declOf P { w with db := [] }
+  | build {P : Project} {w : World} (cfg : Cfg) (picks : List Nat) (r : Result) :
+      HistoryP F declOf P w → WF P → BodiesTotal P → DeclChangeTouchesSrc declOf P w.fs →
+      Engine.build F P cfg w picks = .ok r → HistoryP F declOf P r.w
+
+theorem historyP_coherent {F : BodyFn} {declOf : Nat → Nat → Option Decl} {P : Project} {w : World}
+    (h : HistoryP F declOf P w) : DbCoherentS F declOf w.db := by
+  induction h with
+  | init P fs => exact coherentS_init F declOf
+  | fileEdit fs' _ ih => exact ih
+  | projEdit e _ ih => exact ih
+  | dbLost _ _ => exact coherentS_init F declOf
+  | build cfg picks r _ hwf hbt hread hb ih => exact coherentS_build F declOf _ cfg _ picks r hwf hbt hread hb ih
+
+/-- rows of a task are not written by the protocols of other tasks (loop version) -/
+theorem buildLoop_db_frame {F : BodyFn} {P : Project} {g : G} {cfg : Cfg} (u : Nat) :
+    ∀ (picks : List Nat) {so so' : Sorter} {s s' : Sess}, buildLoop F P g cfg so s picks = .ok (so', s') →
+      u ∉ picks → ∀ v, row s'.w.db u v = row s.w.db u v
+  | [], so, so', s, s', h, _, v => by
+    simp only [buildLoop, Except.ok.injEq, Prod.mk.injEq] at h
+    rw [← h.2]
+  | t :: ts, so, so', s, s', h, hu, v => by
+    obtain ⟨spec, hfind, _, _, _, hrest⟩ := buildLoop_cons h
+    rw [buildLoop_db_frame u ts hrest (fun h' => hu (by simp [h'])) v]
+    unfold row
+    apply protocol_db_frame F P g cfg s spec (tv u, v)
+    intro heq
+    apply hu
+    rw [tv_inj' heq, find?_id hfind]; simp
+
 end Engine
 end Pytask
